@@ -32,6 +32,107 @@ type Program struct {
 	modsets    map[*ssa.Function]*ModSet
 	repo       string
 	extSpecs   map[string]*FuncContract // trusted contracts for functions outside the module
+	sweeps     []sweepSpec
+	constGlobals map[*ssa.Global]*constGlobalInfo
+	allFuncs   map[*ssa.Function]bool
+	typeInvs   []typeInv
+	valueInvs  []*valueInv
+}
+
+// valueInv: an invariant of every value of a named type that is stored in
+// the heap (asserted at stores, assumed at loads).
+type valueInv struct {
+	pkg, typ, fn, line string
+	zeroSafe           bool
+}
+
+type typeInv struct{ pkg, typ, fn, line string }
+
+// applyTypeInvs adds, for every function under contract with a parameter of
+// type *T, "requires p != nil && inv(p)" and "ensures inv(p)".
+func (p *Program) applyTypeInvs() {
+	for _, ti := range p.typeInvs {
+		for _, k := range sortedKeys(p.contracts) {
+			fc := p.contracts[k]
+			fn := p.byName[k]
+			if fn == nil || fc.NoInv || p.isGhostFn(fn) || fn.Pkg == nil && fn.Parent() == nil {
+				continue
+			}
+			root := fn
+			for root.Parent() != nil {
+				root = root.Parent()
+			}
+			if root.Pkg == nil || root.Pkg.Pkg.Name() != ti.pkg {
+				continue
+			}
+			for _, pr := range fn.Params {
+				pt, ok := pr.Type().(*types.Pointer)
+				if !ok {
+					continue
+				}
+				nt, ok := pt.Elem().(*types.Named)
+				if !ok || nt.Obj().Name() != ti.typ {
+					continue
+				}
+				rq := &Clause{Kind: "requires", Text: fmt.Sprintf("%s != nil && %s(%s)", pr.Name(), ti.fn, pr.Name()), Line: ti.line}
+				en := &Clause{Kind: "ensures", Text: fmt.Sprintf("%s(%s)", ti.fn, pr.Name()), Line: ti.line, Tags: nil}
+				fc.Requires = append([]*Clause{rq}, fc.Requires...)
+				fc.Ensures = append([]*Clause{en}, fc.Ensures...)
+				fc.InvParams = append(fc.InvParams, pr.Name())
+				fc.LoopTypeInvs = append(fc.LoopTypeInvs, &Clause{Kind: "invariant", Text: fmt.Sprintf("%s(old(%s))", ti.fn, pr.Name()), Line: ti.line})
+			}
+		}
+	}
+}
+
+type sweepSpec struct {
+	pkg, prop, file, dir string
+	excl                 []string
+}
+
+// applySweeps gives every function declared in a swept file an (empty)
+// contract block carrying the implicit safety obligations.
+func (p *Program) applySweeps() {
+	for _, sw := range p.sweeps {
+		target := filepath.Join(sw.dir, sw.file)
+		for _, k := range sortedKeys(p.byName) {
+			fn := p.byName[k]
+			if fn.Syntax() == nil || p.isGhostFn(fn) {
+				continue
+			}
+			if p.fset.Position(fn.Syntax().Pos()).Filename != target {
+				continue
+			}
+			skip := false
+			for _, e := range sw.excl {
+				root := fn
+				for root.Parent() != nil {
+					root = root.Parent()
+				}
+				if root.Name() == e {
+					skip = true
+				}
+			}
+			if skip {
+				continue
+			}
+			fc := p.contracts[k]
+			if fc == nil {
+				fc = &FuncContract{Key: k, File: target, Loops: map[int]*LoopContract{}, Skip: map[string]bool{}, Props: map[string]bool{}}
+				p.contracts[k] = fc
+			}
+			has := false
+			for _, s := range fc.Safety {
+				if s == sw.prop {
+					has = true
+				}
+			}
+			if !has {
+				fc.Safety = append(fc.Safety, sw.prop)
+				fc.Props[sw.prop] = true
+			}
+		}
+	}
 }
 
 type Clause struct {
@@ -69,6 +170,13 @@ type FuncContract struct {
 	Props     map[string]bool
 	Modifies  []string
 	Notes     []string
+	NoInv     bool
+	BadRefine bool
+	FuncType  string
+	NoLoopInv bool
+	LoopTypeInvs []*Clause
+	ParamNames []string
+	InvParams []string
 }
 
 func loadProgram(repo string) (*Program, error) {
@@ -107,7 +215,8 @@ func loadProgram(repo string) (*Program, error) {
 		}
 	}
 	// index functions
-	for fn := range ssautil.AllFunctions(sprog) {
+	p.allFuncs = ssautil.AllFunctions(sprog)
+	for fn := range p.allFuncs {
 		if fn.Pkg == nil || !p.inModule(fn.Pkg.Pkg.Path()) {
 			continue
 		}
@@ -123,6 +232,13 @@ func loadProgram(repo string) (*Program, error) {
 		if err := p.parseContracts(pk); err != nil {
 			return nil, err
 		}
+	}
+	p.applySweeps()
+	p.applyFuncTypeContracts()
+	p.applyTypeInvs()
+	p.analyseGlobals()
+	if os.Getenv("GOVC_DEBUG") != "" {
+		p.dumpGlobals()
 	}
 	return p, nil
 }
@@ -251,7 +367,7 @@ func representable(t types.Type, depth int) bool {
 
 var clauseKeywords = map[string]bool{"func": true, "requires": true, "ensures": true, "loop": true, "arith": true,
 	"safety": true, "inline": true, "pure": true, "trusted": true, "skip": true, "ghost": true, "lemma": true,
-	"modifies": true, "note": true, "opaque": true}
+	"modifies": true, "note": true, "opaque": true, "sweep": true, "typeinv": true, "noinv": true, "valueinv": true, "params": true, "noloopinv": true}
 
 func (p *Program) parseContracts(pk *packages.Package) error {
 	for i, f := range pk.Syntax {
@@ -292,6 +408,44 @@ func (p *Program) parseContractFile(pkgName string, f *ast.File, fname string, e
 				return fmt.Errorf("%s: continuation line without clause: %s", where, line)
 			}
 			lastStr = nil
+			if word == "typeinv" {
+				ws := strings.Fields(rest)
+				if len(ws) < 2 {
+					return fmt.Errorf("%s: typeinv needs a type and a spec function", where)
+				}
+				p.typeInvs = append(p.typeInvs, typeInv{pkg: pkgName, typ: ws[0], fn: ws[1], line: where})
+				cur = nil
+				continue
+			}
+			if word == "valueinv" {
+				ws := strings.Fields(rest)
+				if len(ws) < 2 {
+					return fmt.Errorf("%s: valueinv needs a type and a spec function", where)
+				}
+				p.valueInvs = append(p.valueInvs, &valueInv{pkg: pkgName, typ: ws[0], fn: ws[1], line: where, zeroSafe: len(ws) > 2 && ws[2] == "zero-safe"})
+				cur = nil
+				continue
+			}
+			if word == "sweep" {
+				ws := strings.Fields(rest)
+				if len(ws) < 2 {
+					return fmt.Errorf("%s: sweep needs a property and file names", where)
+				}
+				var excl []string
+				for _, fn := range ws[1:] {
+					if strings.HasPrefix(fn, "-") {
+						excl = append(excl, fn[1:])
+					}
+				}
+				for _, fn := range ws[1:] {
+					if strings.HasPrefix(fn, "-") {
+						continue
+					}
+					p.sweeps = append(p.sweeps, sweepSpec{pkg: pkgName, prop: ws[0], file: fn, dir: filepath.Dir(fname), excl: excl})
+				}
+				cur = nil
+				continue
+			}
 			if word == "func" {
 				key := rest
 				if !external {
@@ -383,6 +537,12 @@ func (p *Program) parseContractFile(pkgName string, f *ast.File, fname string, e
 					cur.Safety = append(cur.Safety, w)
 					cur.Props[w] = true
 				}
+			case "noinv":
+				cur.NoInv = true
+			case "noloopinv":
+				cur.NoLoopInv = true
+			case "params":
+				cur.ParamNames = strings.Fields(rest)
 			case "inline":
 				cur.Inline = true
 			case "pure":
@@ -513,4 +673,70 @@ func astLoops(body ast.Node) []ast.Node {
 		return true
 	})
 	return out
+}
+
+
+// applyFuncTypeContracts: every function converted to a named function type
+// that has a type contract ("//@ func type:T") inherits that contract's
+// requires and ensures clauses, so that it refines the type contract by
+// construction (same precondition, at least the same postcondition).
+func (p *Program) applyFuncTypeContracts() {
+	done := map[*ssa.Function]bool{}
+	for _, fn := range p.funcList {
+		for _, b := range fn.Blocks {
+			for _, in := range b.Instrs {
+				ct, ok := in.(*ssa.ChangeType)
+				if !ok {
+					continue
+				}
+				nt, ok := ct.Type().(*types.Named)
+				if !ok || nt.Obj().Pkg() == nil {
+					continue
+				}
+				tc := p.contracts[nt.Obj().Pkg().Name()+".type:"+nt.Obj().Name()]
+				if tc == nil {
+					continue
+				}
+				var target *ssa.Function
+				switch v := ct.X.(type) {
+				case *ssa.Function:
+					target = v
+				case *ssa.MakeClosure:
+					target = v.Fn.(*ssa.Function)
+				}
+				if target == nil || done[target] {
+					continue
+				}
+				done[target] = true
+				key := p.funcKey(target)
+				fc := p.contracts[key]
+				if fc == nil {
+					continue // not under contract: reported by the refinement check when the type contract is used
+				}
+				ok2 := len(target.Params) == len(tc.ParamNames)
+				for i := range tc.ParamNames {
+					if ok2 && target.Params[i].Name() != tc.ParamNames[i] {
+						ok2 = false
+					}
+				}
+				if !ok2 {
+					fc.Notes = append(fc.Notes, "parameter names differ from the type contract of "+nt.Obj().Name())
+					fc.BadRefine = true
+					continue
+				}
+				fc.FuncType = nt.Obj().Name()
+				for _, rq := range tc.Requires {
+					c2 := *rq
+					fc.Requires = append(fc.Requires, &c2)
+				}
+				for _, en := range tc.Ensures {
+					c2 := *en
+					fc.Ensures = append(fc.Ensures, &c2)
+				}
+				for pr := range tc.Props {
+					_ = pr
+				}
+			}
+		}
+	}
 }
